@@ -179,36 +179,69 @@ def r3_failure_conversion(a, tier):
         floor=3,
     )
     rc = a.p.func(f'{ENGINE}.rule_call')
-    tries = [n for n in walk_no_defs(rc.node) if isinstance(n, ast.Try)]
-    seen_fs = False
-    for t in tries:
-        for h in t.handlers:
-            classes = _handler_classes(a, rc, h)
-            memo = [n for n in ast.walk(h) if isinstance(n, ast.Call) and dotted(n.func) == 'self.memoize']
-            raises = [n for n in ast.walk(h) if isinstance(n, ast.Raise)]
-            stored = [norm(m.args[1]) for m in memo if len(m.args) >= 2]
-            raised = [(norm(r.exc) if r.exc is not None else (h.name or '<bare>')) for r in raises]
-            consistent = bool(memo) and bool(raises) and set(stored) == set(raised) and len(set(stored)) == 1
-            rep.add({'handler': [c.split('.')[-1] for c in classes], 'memoizes': stored, 'raises': raised, 'consistent': consistent})
-            if not consistent:
-                rep.fail(rc.qualname, f'store-vs-raise:{",".join(c.split(".")[-1] for c in classes)}',
-                         f'handler for {[c.split(".")[-1] for c in classes]} memoizes {stored} but raises {raised}: a replay '
-                         f'of the remembered failure is not the failure the first invocation raised', f'{rc.module.relpath}:{h.lineno}')
-            if any(c.endswith('.FailedSemantics') for c in classes):
-                seen_fs = True
-                conv = any(isinstance(n, ast.Call) and dotted(n.func) == 'self.newexcept' for n in ast.walk(h))
-                if not conv:
-                    rep.fail(rc.qualname, 'no-conversion', 'the FailedSemantics handler does not convert through newexcept '
-                             '(a positioned FailedParse)', f'{rc.module.relpath}:{h.lineno}')
-                # what is raised must be the converted exception
-                conv_vars = {n.targets[0].id for n in ast.walk(h) if isinstance(n, ast.Assign) and isinstance(n.value, ast.Call)
-                             and dotted(n.value.func) == 'self.newexcept' and isinstance(n.targets[0], ast.Name)}
-                if raised and not set(raised) <= conv_vars | {'self.newexcept'}:
-                    rep.fail(rc.qualname, 'raises-unconverted', f'the FailedSemantics handler raises {raised}, not the converted '
-                             f'FailedParse {sorted(conv_vars)}: choices above do not treat it as a mismatch', f'{rc.module.relpath}:{h.lineno}')
-    if not seen_fs:
-        rep.fail(rc.qualname, 'no-failedsemantics-handler', 'rule_call has no handler for FailedSemantics: an action that '
-                 'raises it does not fail the invocation like a syntax mismatch', rc.loc)
+    # contract, interpreted with scripted callees (whatever the shape of the handlers): what rule_call raises is the object it memoized
+    from ..minieval import Raised, Unsupported as _Uns
+    from ..modelinterp import Bound as _Bound, Hook as _Hook, ModelInterp as _MI, Recorder as _Rec, Stub as _Stub
+    RR = 'tatsu.contexts.infos.RuleResult'
+
+    def run(body_raises=None, action_raises=None):
+        memoized: list = []
+        converted: list = []
+        raised_in = Raised(body_raises or action_raises or 'none', ast.Pass())
+
+        def newexcept(*x, **k):
+            ex = Raised('FailedParse', ast.Pass())
+            converted.append(ex)
+            return ex
+
+        def body(ri):
+            if body_raises:
+                raise raised_in
+            return 'BODY'
+
+        def action(ri, node, pos=None):
+            if action_raises:
+                raise raised_in
+            return node
+        me = _Stub(ENGINE, states=_Rec('states'), pos=5, memo=_Hook(lambda key: None), set_left_recursion_guard=_Hook(lambda key: None), next_token=_Hook(lambda *x: None),
+                   set_parseinfo=_Hook(lambda *x, **k: None), memoize=_Hook(lambda key, res: memoized.append(res)), semantics_call=_Hook(action), func_call=_Hook(body),
+                   newexcept=_Hook(newexcept), set_furthest_exception=_Hook(lambda e: None), clear_left_recursion_guard=_Hook(lambda key: None))
+        it = _MI(a, {'RuleResult': _Hook(lambda node, newpos: _Stub(RR, node=node, newpos=newpos), q=RR), 'str': _Hook(lambda o: 'message')})
+        try:
+            it.call_bound(_Bound(me, rc), [Obj(name='r', is_name=False, is_tokn=False, is_lrec=False), Obj(pos=5)], {})
+            out = None
+        except Raised as r:
+            out = r
+        except _Uns as e:
+            raise AnalysisError(f'C06.R3: cannot interpret rule_call: {e}') from e
+        return raised_in, out, memoized, converted
+    seen_fs = True
+    for what, kw, foreign in (('the body fails with FailedToken', dict(body_raises='FailedToken'), False), ('the action fails with FailedParse', dict(action_raises='FailedParse'), False),
+                              ('the action raises FailedSemantics', dict(action_raises='FailedSemantics'), False), ('the action raises ValueError', dict(action_raises='ValueError'), True)):
+        raised_in, out, memoized, converted = run(**kw)
+        if foreign:
+            ok = out is raised_in and not memoized
+            rep.add({'rule_call': what, 'raised_unchanged': out is raised_in, 'memoized': len(memoized), 'ok': ok})
+            if not ok:
+                rep.fail(rc.qualname, 'foreign-through-rule_call', f'rule_call when {what}: raises {out.cls_name if out is not None else None} and memoizes {len(memoized)} '
+                         f'entries; any other exception must reach the caller unchanged and is no outcome of the rule', rc.loc)
+            continue
+        is_fs = kw.get('action_raises') == 'FailedSemantics'
+        same = out is not None and len(memoized) == 1 and memoized[0] is out
+        conv_ok = (not is_fs) or (out is not None and out is not raised_in and converted and out is converted[-1])
+        keep_ok = is_fs or out is raised_in
+        rep.add({'rule_call': what, 'raises': out.cls_name if out is not None else None, 'memoized_the_raised_object': same,
+                 'converted_through_newexcept': bool(converted) if is_fs else None, 'ok': same and conv_ok and keep_ok})
+        if not same:
+            rep.fail(rc.qualname, f'store-vs-raise:{kw.get("body_raises") or kw.get("action_raises")}', f'rule_call when {what}: raises {out.cls_name if out is not None else "nothing"} '
+                     f'but memoizes {[getattr(m, "cls_name", repr(m)) for m in memoized]} (same object: {same}): a replay of the remembered failure is not the failure the first invocation raised',
+                     rc.loc)
+        if is_fs and not conv_ok:
+            seen_fs = out is not None and out is not raised_in
+            rep.fail(rc.qualname, 'raises-unconverted' if out is raised_in else 'no-conversion', f'rule_call when {what}: raises {"the FailedSemantics itself" if out is raised_in else out.cls_name if out is not None else "nothing"}, '
+                     f'not the positioned FailedParse made by newexcept(): choices above do not treat it as a mismatch at this position', rc.loc)
+        if not is_fs and not keep_ok:
+            rep.fail(rc.qualname, f'failure-replaced:{kw.get("body_raises") or kw.get("action_raises")}', f'rule_call when {what}: raises another exception object than the one that failed the rule', rc.loc)
     # package-wide handler order
     n_try = 0
     for f in a.p.functions.values():
@@ -383,14 +416,26 @@ def r5_decorators(a, tier):
     post = a.p.func('tatsu.peg.base.Rule.__post_init__')
     sem_rule = a.p.func('tatsu.peg.semantics.GrammarSemantics.rule')
     field_of = {'name': 'is_name', 'isname': 'is_name', 'nomemo': 'no_memo', 'nostak': 'no_stak'}
+    from ..minieval import Unsupported as _Uns
+    from ..modelinterp import Bound as _Bound, Hook as _Hook, ModelInterp as _MI, Stub as _Stub
+
+    def post_init_flags(decorators):
+        """Rule.__post_init__ interpreted on a stand-in rule with these decorators: the flags it ends up with"""
+        rule = _Stub('tatsu.peg.base.Rule', name='r', exp=_Stub('tatsu.peg.basic.Token', token='x'), params=(), kwparams={}, decorators=list(decorators), base=None,
+                     is_name=False, is_tokn=False, no_memo=False, no_stak=False, is_memo=True, is_lrec=False, ast=None)
+        it = _MI(a, {'typename': _Hook(lambda o: o._cls.split('.')[-1] if isinstance(o, _Stub) else type(o).__name__)})
+        try:
+            it.call_bound(_Bound(rule, post), [], {})
+        except _Uns as e:
+            raise AnalysisError(f'C06.R5: cannot interpret Rule.__post_init__: {e}') from e
+        return {k: rule._attrs.get(k) for k in ('is_name', 'no_memo', 'no_stak')}
+    plain = post_init_flags([])
     for d in names:
         consumed_into = None
         if d in field_of:
-            for n in walk_no_defs(post.node):
-                if isinstance(n, ast.Assign) and norm(n.targets[0]) == f'self.{field_of[d]}' and any(
-                        isinstance(c, ast.Compare) and isinstance(c.left, ast.Constant) and c.left.value == d
-                        and isinstance(c.ops[0], ast.In) and norm(through_locals(post, c.comparators[0])) in ('self.decorators', 'self.decorators or []') for c in ast.walk(n.value)):
-                    consumed_into = f'Rule.{field_of[d]}'
+            got = post_init_flags([d])
+            if got.get(field_of[d]) is True and not plain.get(field_of[d]) and all(got[k] == plain[k] for k in got if k != field_of[d]):
+                consumed_into = f'Rule.{field_of[d]}'
         else:
             if any(isinstance(c, ast.Constant) and c.value == d for c in ast.walk(sem_rule.node)):
                 consumed_into = 'GrammarSemantics.rule'
